@@ -157,7 +157,11 @@ C2(c, binT, ipT) ==
      IN /\ n = NumPairs(c, b, FALSE)
         /\ SumOver(P, LAMBDA p : PairDPhi(c, b, p)) = -n * (b.tang % 2)
         /\ SumOver(P, LAMBDA p : 2 * p[5]) = n * KH(c, b) * Max2(1, c.tofMash)
-        /\ AxiallyComplete(c, b) => SumOver(P, LAMBDA p : 2 * (p[4] - p[2])) = n * Delta2(c, b.seg)
+        \* (an even number of combined ring differences - even spans - splits into two half-sets used by
+        \*  alternate axial positions, whose averages lie half a ring difference either side of the segment's)
+        /\ AxiallyComplete(c, b) =>
+             LET dev == SumOver(P, LAMBDA p : 2 * (p[4] - p[2])) - n * Delta2(c, b.seg) IN
+             IF (SegMaxRD(c, b.seg) - SegMinRD(c, b.seg)) % 2 = 0 THEN dev = 0 ELSE Abs(dev) <= n
 \* C3: "Coordinates are antisymmetric and monotone in the indices"
 C3(c) ==
   \A b \in AllBins(c) :
